@@ -41,6 +41,12 @@ def mesh(name):
         v = np.array([[0, 1, 0, 1, 0.1, 1.1], [0, 0.1, 1, 1.1, 2, 2.1], [0, 0.1, 0.2, 0.1, 0, 0.3]])
         e = np.array([[0, 1, 2, 3], [1, 3, 3, 5], [2, 2, 4, 4]])
         return v, e, [0, 1, 1, 2]
+    if name == "F5":  # flat fan of 4 unit right triangles (all geometric quantities rational)
+        v = np.array([[0, 1, 0, -1, 0], [0, 0, 1, 0, -1], [0, 0, 0, 0, 0.0]])
+        e = np.array([[0, 0, 0, 0], [1, 2, 3, 4], [2, 3, 4, 1]])
+        return v, e, [0, 0, 1, 1]
+    if name == "F2":  # flat unit square split in two
+        return np.array([[0, 1, 0, 1], [0, 0, 1, 1], [0, 0, 0, 0.0]]), np.array([[0, 1], [1, 3], [2, 2]]), [0, 1]
     raise KeyError(name)
 
 
